@@ -78,9 +78,22 @@ where
             loop {
                 let request = recv_request.recv().await?;
 
-                frame
+                if frame
                     .write_async::<MessageRequest<S>, _>(Pin::new(&mut stdin), &request)
-                    .await?;
+                    .await
+                    .is_err()
+                {
+                    // The child is gone: it died while idle, or while
+                    // reading this request (one larger than its memory
+                    // limit, for instance). Answer the request and start
+                    // a new child for the next one.
+                    send_response
+                        .send(Err(Error::Crashed))
+                        .await
+                        .map_err(|_| Error::Send("response to caller"))?;
+                    let _ = process.kill();
+                    break;
+                }
 
                 let interrupt = async {
                     ctrlc.next().await;
